@@ -109,10 +109,63 @@ def run(ctx):
         if not good:
             ctx.violation("corr:stream", [c.to_json() for c in group], impl="values written back to back are not read back one by one",
                           model="stream_roundtrip", signature="C01:stream:not-read-back-one-by-one", found_input=True)
+    long_stream(ctx)
+
+
+def long_stream(ctx):
+    """corr:stream-file: several thousand values back to back in a REAL file opened with open(path, "rb") (a buffered reader:
+    values straddle every internal buffer boundary), read back one by one; compared with the values and with the byte
+    position after each value (an independent encoder gives the positions)."""
+    import fastavro, os, tempfile
+    rng = ctx.rng
+    named = {}
+    schema = fastavro.parse_schema({"type": "record", "name": "StreamRec", "fields": [
+        {"name": "a", "type": "long"}, {"name": "s", "type": "string"}, {"name": "l", "type": {"type": "array", "items": "long"}},
+        {"name": "u", "type": ["null", "int", "double"]}]}, named)
+    bounds = [0, -1, 63, 64, -65, 8191, 8192, -8193, 1 << 20, (1 << 21) - 1, -(1 << 27), (1 << 34), -(1 << 41), (1 << 48) + 5, -(1 << 55), (1 << 62), (1 << 63) - 1, -(1 << 63)]
+    n = 900 if ctx.quick() else 20000
+    recs = []
+    for i in range(n):
+        recs.append({"a": rng.choice(bounds), "s": "x" * rng.choice([0, 1, 2, 7, 130]), "l": [rng.choice(bounds) for _ in range(rng.choice([0, 1, 3, 9]))],
+                     "u": rng.choice([None, rng.choice([-(1 << 31), (1 << 31) - 1, 64, -65]), 0.5])})
+    d = tempfile.mkdtemp(prefix="c01s_", dir=ctx.workdir)
+    path = os.path.join(d, "stream.bin")
+    ends = []
+    with open(path, "wb") as fo:
+        for r in recs:
+            fastavro.schemaless_writer(fo, schema, r)
+            ends.append(fo.tell())
+    bad = None
+    try:
+        for bufsize in (-1, 4096, 0):
+            with open(path, "rb", buffering=bufsize) as fi:
+                for i, r in enumerate(recs):
+                    out = fastavro.schemaless_reader(fi, schema)
+                    ctx.count("corr:stream-file", None, nontrivial=False)
+                    if not CC.norm_equiv(r, out, schema, named, True) or fi.tell() != ends[i]:
+                        bad = dict(index=i, buffering=bufsize, expected=repr(r), got=repr(out)[:300], position=fi.tell(), expected_position=ends[i])
+                        break
+            if bad:
+                break
+    except Exception as e:
+        bad = dict(buffering=bufsize, raised=type(e).__name__ + ": " + str(e)[:200])
+    finally:
+        import shutil
+        shutil.rmtree(d, ignore_errors=True)
+    if bad:
+        ctx.violation("corr:stream-file", dict(stream_file=True, seed=ctx.seed, n=n, detail=bad), impl=repr(bad)[:600],
+                      model="each value read back, stream position = end of that value's encoding",
+                      signature="C01:stream:real-file:not-read-back-one-by-one", found_input=True)
 
 
 def replay(ctx, rep):
     case = rep["case"]
+    if isinstance(case, dict) and case.get("stream_file"):
+        import types
+        before = len(ctx.violations) if hasattr(ctx, "violations") else None
+        long_stream(ctx)
+        print("stream-file family re-run with the same seed")
+        return before is not None and len(ctx.violations) == before
     if isinstance(case, list):
         print("stream case: re-run the check")
         return False
